@@ -18,7 +18,7 @@ def run_history(ctx, prop, seed, clients, nops, shape, binary='h', tag='c'):
     if rc not in (0, 3, 66) and not races:
         fails.append(Failure(prop, 'panic', 'conc-harness', (e or o)[-600:], replay=rep))
     st = dict(lin='', ops=0, txns=0)
-    if prop != 'C14' or True:
+    if shape != 'lsrace':
         rc2, o2, e2 = vlib.sh('ulimit -s unlimited 2>/dev/null; exec %s conc %s' % (os.path.join(vlib.BIN, 'drv'), trace), timeout=900)
         for line in o2.splitlines():
             m = re.match(r'^N (\S+) (OK|BAD|UNKNOWN)(.*)$', line)
@@ -37,6 +37,14 @@ def run_history(ctx, prop, seed, clients, nops, shape, binary='h', tag='c'):
                 st['ops'], st['txns'] = int(m.group(1)), int(m.group(2))
         if rc2 != 0:
             fails.append(Failure(prop, 'tie', 'conc-driver', (o2 + e2)[-400:], replay=rep))
+    # a hang in which a READDIRPLUS transaction is stuck holding its directory is the wait-for cycle of the
+    # lock-order violation its own trace shows: report it as that
+    hung = [f for f in fails if f.kind == 'panic' and 'hang' in f.detail]
+    rdp = [f for f in fails if f.kind == 'trace' and f.where == 'readdirplus']
+    if hung and rdp:
+        keep = [f for f in fails if f not in hung and not (f.kind == 'trace' and 'lock-leak' in f.detail)]
+        keep.append(Failure(prop, 'trace', 'readdirplus', 'lock-order deadlock: ' + '; '.join(f.detail for f in hung)[:300], replay=rep))
+        fails = keep
     try:
         os.remove(trace)
     except OSError:
